@@ -179,6 +179,7 @@ theorem good_next (cfg : Cfg) (s : State) (o : Op) (g : Good s) : Good (next cfg
   | write h i q => exact good_upd g h (good_write cfg i q (g h))
   | tick => intro h; exact good_tick cfg (g h)
   | rm h => exact good_upd g h (good_rm (g h))
+  | notice h => exact g
 
 theorem runFrom_good (cfg : Cfg) (ops : List Op) : ∀ s, Good s → Good (runFrom cfg s ops) := by
   induction ops with
@@ -228,6 +229,7 @@ theorem serves_step (cfg : Cfg) (s : State) (o : Op) (h : Hash) :
       unfold rmTor removeTor; repeat' split
       all_goals simp
     · simp [next, step, serveOf, upd_other _ _ _ _ e]
+  | notice h' => simp [next, step, serveOf]
 
 theorem writes_step (cfg : Cfg) (s : State) (o : Op) (h : Hash) :
     ((next cfg s o).tors h).writes =
@@ -276,6 +278,7 @@ theorem writes_step (cfg : Cfg) (s : State) (o : Op) (h : Hash) :
       unfold rmTor removeTor; repeat' split
       all_goals simp
     · simp [next, step, writeOf, upd_other _ _ _ _ e]
+  | notice h' => simp [next, step, writeOf]
 
 theorem serves_events (cfg : Cfg) (ops : List Op) : ∀ (s : State) (h : Hash),
     ((runFrom cfg s ops).tors h).serves =
@@ -405,6 +408,7 @@ theorem drop_only_tick_rm (cfg : Cfg) (s : State) (o : Op) (h : Hash)
     by_cases e : h = h'
     · subst e; exact Or.inr rfl
     · simp [next, step, upd_other _ _ _ _ e, hp] at hd
+  | notice h' => simp [next, step, hp] at hd
 
 theorem removal_deletes_partial (cfg : Cfg) (s : State) (o : Op) (h : Hash)
     (hp : (s.tors h).present = true) (hc : (s.tors h).complete = false)
@@ -473,5 +477,6 @@ theorem cached_survives (cfg : Cfg) (s : State) (o : Op) (h : Hash) (g : GoodT s
     by_cases e : h = h'
     · subst e; exact absurd rfl ho
     · simp [next, step, upd_other _ _ _ _ e, hc]
+  | notice h' => simpa [next, step] using hc
 
 end KrakenModel.Proof.C18
